@@ -242,60 +242,75 @@ pub fn h_lines() {
     let mut sizes: Vec<Option<u64>> = vec![None, None, None];
     let mut text: Vec<u8> = Vec::new();
     let nl = 1 + sym::choose("nlines", sym::bound(3, 4));
+    // blank style between fields, once per text: single blank / doubled blanks with leading
+    // blanks / tab+blank
+    let style = sym::choose("ws", 3);
+    let ws = |t: &mut Vec<u8>| match style {
+        0 => t.push(b' '),
+        1 => t.extend_from_slice(b"  "),
+        _ => t.extend_from_slice(b"\t "),
+    };
     let mut i = 0;
     while i < nl {
-        let ws = |t: &mut Vec<u8>| match sym::choose("ws", 3) {
-            0 => t.push(b' '),
-            1 => t.extend_from_slice(b"  "),
-            _ => t.extend_from_slice(b"\t "),
-        };
-        match sym::choose("kind", 7) {
-            0 | 1 => {
-                let is_size = sym::choose("size?", 2) == 1;
-                let w = sym::choose("which", 3);
-                if sym::choose("lead", 2) == 1 {
-                    text.extend_from_slice(b"  ");
-                }
-                let a = sym::choose("alg", 6);
-                if is_size {
-                    text.extend_from_slice(b"Size");
-                } else if sym::choose("lower", 2) == 1 {
-                    text.extend_from_slice(ALGS[a].to_lowercase().as_bytes());
-                } else {
-                    text.extend_from_slice(ALGS[a].as_bytes());
-                }
-                ws(&mut text);
-                text.push(b'(');
-                text.extend_from_slice(&names[w]);
-                text.push(b')');
-                ws(&mut text);
-                text.push(b'=');
-                ws(&mut text);
-                if !order.contains(&w) {
-                    order.push(w);
-                }
-                if is_size {
-                    let (s, digits) = any_size("sz");
-                    text.extend_from_slice(&digits);
-                    text.extend_from_slice(b" bytes");
-                    sizes[w] = Some(s);
-                } else {
-                    let h = vec![b'a' + i as u8];
-                    text.extend_from_slice(&h);
-                    sums[w].push((a, h));
-                }
+        let kind = sym::choose("kind", 10);
+        if kind < 5 {
+            let (w, is_size) = match kind {
+                0 => (0, false),
+                1 => (1, false),
+                2 => (2, false),
+                3 => (0, true),
+                _ => (2, true),
+            };
+            if style == 1 {
+                text.extend_from_slice(b"  ");
             }
-            2 => text.extend_from_slice(b"# SHA1 (d) = 00"),
-            3 => {}
-            4 => text.extend_from_slice(b"SHA3 (d) = 00"),
-            5 => {
-                text.extend_from_slice(b"Size (d9) = ");
-                text.extend_from_slice(&sym::any_bytes("badsize", "set:-x9", 0, 2));
-                text.extend_from_slice(b"x bytes");
+            let a = (i * 5 + w) % 6;
+            if is_size {
+                text.extend_from_slice(b"Size");
+            } else if i % 2 == 1 {
+                text.extend_from_slice(ALGS[a].to_lowercase().as_bytes());
+            } else {
+                text.extend_from_slice(ALGS[a].as_bytes());
             }
-            _ => {
-                text.extend_from_slice(b"g");
-                text.extend_from_slice(&sym::any_bytes("garbage", "bytes-nonl", 0, 2));
+            ws(&mut text);
+            text.push(b'(');
+            text.extend_from_slice(&names[w]);
+            text.push(b')');
+            ws(&mut text);
+            text.push(b'=');
+            ws(&mut text);
+            if !order.contains(&w) {
+                order.push(w);
+            }
+            if is_size {
+                let mut digits = sym::any_bytes("sz", "hex:31-39", 1, 1);
+                digits.extend_from_slice(&sym::any_bytes("sz", "hex:30-39", 0, 1));
+                let mut n: u64 = 0;
+                for x in digits.iter() {
+                    n = n * 10 + (*x - b'0') as u64;
+                }
+                text.extend_from_slice(&digits);
+                text.extend_from_slice(b" bytes");
+                sizes[w] = Some(n);
+            } else {
+                let h = vec![b'a' + i as u8];
+                text.extend_from_slice(&h);
+                sums[w].push((a, h));
+            }
+        } else {
+            match kind {
+                5 => text.extend_from_slice(b"# SHA1 (d) = 00"),
+                6 => {}
+                7 => text.extend_from_slice(b"SHA3 (d) = 00"),
+                8 => {
+                    text.extend_from_slice(b"Size (d9) = ");
+                    text.extend_from_slice(&sym::any_bytes("badsize", "set:-x9", 0, 2));
+                    text.extend_from_slice(b"x bytes");
+                }
+                _ => {
+                    text.extend_from_slice(b"g");
+                    text.extend_from_slice(&sym::any_bytes("garbage", "bytes-nonl", 0, 2));
+                }
             }
         }
         text.push(b'\n');
